@@ -21,11 +21,14 @@
 #include <fcppt/variant/object_impl.hpp>
 
 #include <cstdio>
+#include <exception>
+#include <set>
 #include <string>
 #include <tuple>
 #include <type_traits>
 #include <utility>
 #include <vector>
+#include <unistd.h>
 
 namespace c05
 {
@@ -134,13 +137,62 @@ inline bool &thorough()
   static bool b = false;
   return b;
 }
-inline bool wanted(char const *op) { return only_op().empty() || only_op() == op; }
-
-inline void reset(char const *op, std::string const &shape, std::string const &cats)
+// operations that are not driven any more in this run (they crashed / hung twice in earlier runs)
+inline std::set<std::string> &skip_ops()
 {
+  static std::set<std::string> s;
+  return s;
+}
+// histories with an index below this are not run: after a crash / hang inside history k the check
+// starts the harness again with start = k + 1 (the enumeration is deterministic)
+inline long &start_history()
+{
+  static long n = 0;
+  return n;
+}
+// seconds a single history may take before the watchdog (SIGALRM -> exit 68) stops the process
+inline unsigned &history_seconds()
+{
+  static unsigned n = 10U;
+  return n;
+}
+inline bool wanted(char const *op) { return (only_op().empty() || only_op() == op) && skip_ops().count(op) == 0U; }
+
+// starts history number history_count() (field "h"); false = this history is not to be run
+[[nodiscard]] inline bool reset(char const *op, std::string const &shape, std::string const &cats)
+{
+  long const h = history_count()++;
+  if (h < start_history())
+    return false;
   tok_counter() = 0;
-  ++history_count();
-  trk::emit(std::string{"{\"e\":\"reset\",\"op\":\""} + op + "\",\"shape\":\"" + shape + "\",\"cats\":\"" + cats + "\"}");
+  trk::history_events() = 0;
+  ::alarm(history_seconds());
+  trk::emit(std::string{"{\"e\":\"reset\",\"op\":\""} + op + "\",\"shape\":\"" + shape + "\",\"cats\":\"" + cats + "\",\"h\":" +
+            std::to_string(h) + "}");
+  return true;
+}
+// an exception escaped the traced call (or the construction of its arguments)
+inline void thrown(char const *what)
+{
+  trk::emit(std::string{"{\"e\":\"throw\",\"what\":\""} + vj::esc(what).substr(0, 120) + "\"}");
+}
+// runs one history body; exceptions end the history (event "throw") and the harness carries on
+template <typename Body>
+void guarded(Body const &body)
+{
+  try
+  {
+    body();
+  }
+  catch (std::exception const &e)
+  {
+    thrown(e.what());
+  }
+  catch (...)
+  {
+    thrown("(not a std::exception)");
+  }
+  std::fflush(vj::out_file());
 }
 
 inline char const *cat_name(char c)
@@ -158,7 +210,10 @@ struct arg_desc
 {
   char cat;
   std::vector<long> objs;
+  std::vector<long> xtoks{}; // tokens of tracked values held inside an opaque argument (see Linearity.tla)
 };
+// an argument whose tracked members cannot be walked (a parser object): only the tokens it holds are known
+inline arg_desc opaque(char cat, std::vector<long> toks) { return arg_desc{cat, {}, std::move(toks)}; }
 template <typename X>
 arg_desc desc(char cat, X const &x) { return arg_desc{cat, ids_of(x)}; }
 
@@ -170,7 +225,8 @@ inline void begin(char const *op, bool keeps, std::vector<arg_desc> const &args)
   {
     if (!first) s += ',';
     first = false;
-    s += std::string{"{\"cat\":\""} + cat_name(a.cat) + "\",\"objs\":" + vj::arr(a.objs) + "}";
+    s += std::string{"{\"cat\":\""} + cat_name(a.cat) + "\",\"objs\":" + vj::arr(a.objs) +
+         (a.xtoks.empty() ? std::string{} : ",\"xtoks\":" + vj::arr(a.xtoks)) + "}";
   }
   trk::emit(s + "]}");
   std::fflush(vj::out_file()); // a sanitizer abort inside the library call leaves the begin line on disk
@@ -253,8 +309,10 @@ inline void not_instantiable(char const *op, std::string const &shape, std::stri
 }
 
 // one traced call with one tracked argument
+// `declared`: the category written into the log when it differs from the C++ category of the call
+// expression (move_if_rvalue<Type>(member) with Type naming the surrounding object's category)
 template <char C, typename Make, typename Call>
-void run1(char const *op, bool keeps, std::string const &shape, Make const &make, Call const &call)
+void run1(char const *op, bool keeps, std::string const &shape, Make const &make, Call const &call, char const declared = C)
 {
   if (!wanted(op)) return;
   if constexpr (!std::is_invocable_v<Call const &, decltype(as_cat<C>(std::declval<decltype(make()) &>()))>)
@@ -264,13 +322,17 @@ void run1(char const *op, bool keeps, std::string const &shape, Make const &make
   }
   else
   {
-  reset(op, shape, std::string(1, C));
+  if (!reset(op, shape, std::string(1, declared))) return;
+  guarded([&]
   {
     auto a = make();
-    begin(op, keeps, {desc(C, a)});
-    decltype(auto) r = call(as_cat<C>(a));
-    end(r, {ids_of(a)});
-  }
+    guarded([&]
+    {
+      begin(op, keeps, {desc(declared, a)});
+      decltype(auto) r = call(as_cat<C>(a));
+      end(r, {ids_of(a)});
+    });
+  });
   }
 }
 template <char C1, char C2, typename Make1, typename Make2, typename Call>
@@ -285,14 +347,18 @@ void run2(char const *op, bool keeps, std::string const &shape, Make1 const &mak
   }
   else
   {
-  reset(op, shape, std::string{C1, C2});
+  if (!reset(op, shape, std::string{C1, C2})) return;
+  guarded([&]
   {
     auto a = make1();
     auto b = make2();
-    begin(op, keeps, {desc(C1, a), desc(C2, b)});
-    decltype(auto) r = call(as_cat<C1>(a), as_cat<C2>(b));
-    end(r, {ids_of(a), ids_of(b)});
-  }
+    guarded([&]
+    {
+      begin(op, keeps, {desc(C1, a), desc(C2, b)});
+      decltype(auto) r = call(as_cat<C1>(a), as_cat<C2>(b));
+      end(r, {ids_of(a), ids_of(b)});
+    });
+  });
   }
 }
 template <char C1, char C2, char C3, typename Make1, typename Make2, typename Make3, typename Call>
@@ -305,13 +371,19 @@ void run3(char const *op, bool keeps, std::string const &shape, Make1 const &mak
     not_instantiable(op, shape, std::string{C1, C2, C3});
   else
   {
-    reset(op, shape, std::string{C1, C2, C3});
-    auto a = make1();
-    auto b = make2();
-    auto c = make3();
-    begin(op, keeps, {desc(C1, a), desc(C2, b), desc(C3, c)});
-    decltype(auto) r = call(as_cat<C1>(a), as_cat<C2>(b), as_cat<C3>(c));
-    end(r, {ids_of(a), ids_of(b), ids_of(c)});
+    if (!reset(op, shape, std::string{C1, C2, C3})) return;
+    guarded([&]
+    {
+      auto a = make1();
+      auto b = make2();
+      auto c = make3();
+      guarded([&]
+      {
+        begin(op, keeps, {desc(C1, a), desc(C2, b), desc(C3, c)});
+        decltype(auto) r = call(as_cat<C1>(a), as_cat<C2>(b), as_cat<C3>(c));
+        end(r, {ids_of(a), ids_of(b), ids_of(c)});
+      });
+    });
   }
 }
 template <char C1, char C2, char C3, char C4, typename Make1, typename Make2, typename Make3, typename Make4, typename Call>
@@ -326,14 +398,20 @@ void run4(char const *op, bool keeps, std::string const &shape, Make1 const &mak
     not_instantiable(op, shape, std::string{C1, C2, C3, C4});
   else
   {
-    reset(op, shape, std::string{C1, C2, C3, C4});
-    auto a = make1();
-    auto b = make2();
-    auto c = make3();
-    auto d = make4();
-    begin(op, keeps, {desc(C1, a), desc(C2, b), desc(C3, c), desc(C4, d)});
-    decltype(auto) r = call(as_cat<C1>(a), as_cat<C2>(b), as_cat<C3>(c), as_cat<C4>(d));
-    end(r, {ids_of(a), ids_of(b), ids_of(c), ids_of(d)});
+    if (!reset(op, shape, std::string{C1, C2, C3, C4})) return;
+    guarded([&]
+    {
+      auto a = make1();
+      auto b = make2();
+      auto c = make3();
+      auto d = make4();
+      guarded([&]
+      {
+        begin(op, keeps, {desc(C1, a), desc(C2, b), desc(C3, c), desc(C4, d)});
+        decltype(auto) r = call(as_cat<C1>(a), as_cat<C2>(b), as_cat<C3>(c), as_cat<C4>(d));
+        end(r, {ids_of(a), ids_of(b), ids_of(c), ids_of(d)});
+      });
+    });
   }
 }
 // every combination of value categories of three / four positions
